@@ -359,7 +359,10 @@ class IntegrityChecker(object):
         cues = []
         lends = len(self.ds)
         if "index" in self.ds:
-            if not np.all(self.ds["index"] == np.arange(1, lends + 1)):
+            index = self.ds["index"]
+            # (an index of another length cannot be compared element-wise)
+            if (len(index) != lends
+                    or not np.all(index == np.arange(1, lends + 1))):
                 cues.append(ICue(
                     msg="The index feature is not enumerated correctly",
                     level="violation",
